@@ -287,6 +287,30 @@ def check_cases(mod_name, fn_name, cases, extras=None, processes=16):
     return outs
 
 
+def in_guard_cells(side, detail):
+    """True if the cell / half-cell a failure detail points at (region name + iy | half_index | side)
+    lies in the y-boundary guard cells beyond a target."""
+    try:
+        rid, reg = next((k, r) for k, r in side["regions"].items() if r["name"] == detail.get("region"))
+    except StopIteration:
+        return False
+    g = int(side["mesh_options"].get("y_boundary_guards", 0))
+    if g == 0:
+        return False
+    ny = int(reg["ny"])
+    lower = side["connections"][rid].get("lower") is None and str(reg["kind"]).startswith("wall")
+    upper = side["connections"][rid].get("upper") is None and str(reg["kind"]).endswith("wall")
+    if "iy" in detail:
+        iy = int(detail["iy"])
+        return (lower and iy < g) or (upper and iy >= ny - g)
+    if "half_index" in detail:
+        h = int(detail["half_index"])
+        return (lower and h < 2 * g) or (upper and h >= 2 * ny - 2 * g)
+    if "side" in detail:
+        return (lower and detail["side"] == "lower") or (upper and detail["side"] == "upper")
+    return False
+
+
 def full_labels(labels, case):
     """Labels of a failure: the oracle's own plus the stratum and run-level facts of the case."""
     labels = dict(labels or {})
